@@ -169,6 +169,7 @@ class Run:
         self.violations = []    # (what, replay path)
         self.known = []
         self.inconclusive = []
+        self.reduced = []       # explorations cut by the budget after every assertion of the harness was reached and held: a smaller bound, stated
         self.notes = []
         self.assumptions = []
         self.samples = []
@@ -223,6 +224,7 @@ class Run:
             'rule': 'one evaluation = one SMT obligation (distinct by name); non-trivial = the solver was actually invoked on it',
             'source_hashes': file_hashes(self.anchors),
             'inconclusive': self.inconclusive,
+            'reduced_bounds': self.reduced,
             'notes': self.notes,
             'known_findings_reported': [k for _, k in self.known],
         }
@@ -248,6 +250,8 @@ class Run:
             for s in self.inconclusive:
                 print('INCONCLUSIVE property=%s %s' % (self.pid, s))
             sys.exit(2)
+        for s in self.reduced:
+            print('REDUCED-BOUND property=%s %s' % (self.pid, s))
         print('OK property=%s tier=%s obligations=%d wall=%.1fs' % (self.pid, self.tier, n, wall))
         sys.exit(0)
 
